@@ -32,6 +32,11 @@ def main():
     if a.replay:
         return core.replay(mod, a.replay)
     seed = int(os.environ.get("VERIF_SEED", "1") or "1")
+    only = os.environ.get("VERIF_ONLY_PARTS")   # development aid: run a subset of the parts (evidence is then partial)
+    if only:
+        mod.PARTS = {k: v for k, v in mod.PARTS.items() if k in only.split(",")}
+        if hasattr(mod, "REQUIRED_STRATA"):
+            mod.REQUIRED_STRATA = {}
     if a.scale != 1.0:
         for sub in mod.PARTS.values():
             if "examples" in sub:
